@@ -342,6 +342,11 @@ class Val:
             return NotImplemented
         o = Val.const(o)
         a, b = self, o
+        # booleans used as numbers (mask.sum() in the backward of amax): True = 1, False = 0
+        if a.kind == "bool":
+            a = Val.where(a, Val.const(1), Val.const(0))
+        if b.kind == "bool":
+            b = Val.where(b, Val.const(1), Val.const(0))
         if a.kind == "lin" and b.kind == "lin":
             return _lin_add(a, b)
         if a.kind == "log" and b.kind == "log":
@@ -389,6 +394,10 @@ class Val:
 
     def __truediv__(self, o):
         o = Val.const(o)
+        if o.kind == "bool":
+            o = Val.where(o, Val.const(1), Val.const(0))
+        if self.kind == "bool":
+            return Val.where(self, Val.const(1), Val.const(0)) / o
         if self.kind == "lin" and o.kind == "lin":
             return _P_mul(self, _P_inv(o), "lin")
         if self.kind == "log" and o.kind == "lin":
@@ -541,6 +550,13 @@ class Val:
     # -- comparisons (lin, real)
     def _cmp(self, o, op):
         o = Val.const(o)
+        if op == "eq":
+            # x == amax(group)  (mask in the backward of amax): x is a maximal element of the group
+            groups = CTX.__dict__.get("max_groups", {})
+            for x, mx in ((self, o), (o, self)):
+                if mx.kind == "lin" and not mx.mu and mx.im is None and mx.re in groups and x.re is not mx.re:
+                    conds = [x._cmp(y, "ge").re for y in groups[mx.re] if y.key() != x.key()]
+                    return Val("bool", T.and_(*conds) if conds else T.TRUE)
         if self.kind == "bool" and o.kind == "bool" and op == "eq":
             return Val("bool", T.eq(self.re, o.re))
         if self.kind == "log" or o.kind == "log":
@@ -548,6 +564,14 @@ class Val:
             if a.kind == "log" and b.kind == "log" and a.im is None and b.im is None:
                 # log is monotone: compare arguments (both > 0 or 0)
                 a, b = Val("lin", a.re, None, a.mu), Val("lin", b.re, None, b.mu)
+            elif a.im is None and b.im is None and {a.kind, b.kind} == {"log", "lin"}:
+                # exp is monotone: compare exp(lin side) with the argument of the log side
+                if a.kind == "lin":
+                    a = a.exp()
+                    b = Val("lin", b.re, None, b.mu)
+                else:
+                    b = b.exp()
+                    a = Val("lin", a.re, None, a.mu)
             else:
                 raise Unsupported("compare log with lin")
         else:
